@@ -249,6 +249,21 @@ pub fn run(e: &'static Engine) {
         }));
     }
     e.par(jobs);
+    // realistic payloads (links in either case, mail / phone / Wi-Fi / vCard, key=value, serials, times, dates)
+    let total: u32 = e.tier.pick(16000, 192000);
+    let shards = e.tier.pick(32u32, 96);
+    let mut jobs: Vec<Job> = Vec::new();
+    for _ in 0..shards {
+        jobs.push(Box::new(move |jc: &mut JobCtx| {
+            let strat = crate::gens::realistic_payload();
+            jc.run_prop(2 << 50, &strat, total / shards, to_json, |c, o| {
+                o.label("part:realistic_payloads");
+                o.sample("realistic", || to_json(c));
+                check(c, o)
+            });
+        }));
+    }
+    e.par(jobs);
     let _ = Tier::Quick;
     e.set_exhaustive(true, "all strings of length 0, 1 and 2; all 3^k class patterns for k=3..8 (representatives sampled); all 256 byte values at every position of the drawn context strings");
 }
